@@ -162,6 +162,6 @@ AbsOk(l, par) ==
                           /\ (par.python => l.tcc = <<>>)
     [] l.t = "keyonly" -> /\ cl = "NONE" /\ AllBlank(l.ind) /\ TrailOk(l.tw) /\ l.key # <<>> /\ Printable(l.key)
                           /\ NoOuterBlank(l.key) /\ NoneOf(l.key, C \o <<QUOTE, LBR, RBR>>)
-    [] l.t = "bad"     -> Printable(l.val) /\ NoneOf(l.val, C)
+    [] l.t = "bad"     -> Printable(SelectSeq(l.val, LAMBDA c : c # 13)) /\ NoneOf(l.val, C)    \* (a carriage return inside the line: a blank like any other)
     [] OTHER -> FALSE
 =============================================================================
